@@ -686,10 +686,32 @@ def brokerOpV (st : BkState) (impl : String) (ws : List String) : Option (BkStat
   let (core, flags) := match impl.splitOn " V[" with
     | [a, b] => (a, " V[" ++ b)
     | _ => (impl, "")
-  -- the hidden-state token is part of the model/implementation comparison, not of the spec verdicts
+  -- the hidden-state token is part of the model/implementation comparison, not of the spec verdicts — except
+  -- for C15: the client ids it lists are the sessions the REAL broker still knows
+  let hiddenIds : Option (List String) := match core.splitOn " H[" with
+    | [_, h] => some ((((h.splitOn "]").headD "").splitOn "|").drop 1 |>.map fun e => (e.splitOn "=").headD "")
+    | _ => none
   let core := match core.splitOn " H[" with
     | [a, _] => a
     | _ => core
+  -- C15: a session with expiry 0 (MQTT 5) or an MQTT 3 clean session is discarded when its connection ends
+  let c15end : List String :=
+    let judge (n : Nat) (newSei : Option Nat) : List String :=
+      match assocGet st.srv.connOf n, hiddenIds with
+      | some i, some ids =>
+        let c := getObj st.srv i
+        let registered := assocGet st.srv.clients c.id == some i
+        let sei := match newSei with | some v => if c.sei == 0 then 0 else v | none => c.sei
+        let ends := (c.ver == 5 && sei == 0) || (c.ver < 5 && c.clean)
+        if registered && c.isOpen && !c.inline && !c.peerGone && ends && st.srv.parked.isEmpty && st.srv.parkedEarly.isEmpty &&
+            st.srv.pending.isEmpty && ids.contains (toHex c.id) then
+          [fail "C15" "-" s!"the session of {toHex c.id} ends with its connection (expiry 0 / clean session) but the broker still holds it after c{n} ended"]
+        else []
+      | _, _ => []
+    match ws with
+    | ["bk.drop", n] => (n.toNat?.map fun n => judge n none).getD []
+    | "bk.send" :: n :: "DISCONNECT" :: kv => (n.toNat?.map fun n => judge n (kvNatO kv "sei")).getD []
+    | _ => []
   -- `bk.ack n` is the acknowledgement the bookkeeping says is due: judge it as that `bk.send`
   let wsJ : List String := match ws with
     | ["bk.ack", n] =>
@@ -715,7 +737,7 @@ def brokerOpV (st : BkState) (impl : String) (ws : List String) : Option (BkStat
     let (st3, c11) := c11Update st2b st.srv st'.srv ws (parseImplOut core)
     let (st4, c25) := c25Update st3 st.srv st'.srv ws (parseImplOut core) flags
     let (st5, c11i) := c11InUpdate st4 st.srv ws (parseImplOut core) core
-    some (st5, m, renderVerdicts (brokerVerdicts st.srv ws core flags ++ c12 ++ c09 ++ c11 ++ c25 ++ c11i), g)
+    some (st5, m, renderVerdicts (brokerVerdicts st.srv ws core flags ++ c12 ++ c09 ++ c11 ++ c25 ++ c11i ++ c15end), g)
   | none => none
 
 end Mochi.Driver
